@@ -63,6 +63,8 @@ pub const SESSIONS: &[(&str, &str)] = &[
     ("underscore_names", "_ := 100\na := 1\nb := _ + a\nb\n_x := 5\n_ := _ + _x\n(_, _x, b)\nans := 1\nit := 2\nlast := 3\n7\n(ans, it, last, _)\n__ := _\n8\n(__, _)"),
     // names the host put into the interpreter (and `std` itself) can be re-bound like any other
     ("rebind_host_names", "host_k + 1\nhost_k := 5\nhost_k + 1\nhost_s := 2\n(host_k, host_s)\nn := std.len([1, 2])\nstd := 7\nstd + n\n(std, host_k)"),
+    // derived iterators are values like any other: passed to functions by the language and by the host
+    ("derived_iterators_as_arguments", "label := (x: int) -> string { return \"n\" + std.convert.to_string(x) }\nall := (it: () -> (bool, string)) -> [string] { return it $] }\nlabels := [1, 2]~ @ label\nall([3]~ @ label)\nbig := [5, 1, 7]~ ? (x: int) -> bool { return x > 2 }\nints := (it: () -> (bool, int)) -> int { return it $+ }\nints([4, 4]~)\nmixed := [1, \"a\", 2.5]~ ? int|string\nany_it := (it: () -> (bool, int|string)) -> int { return std.len(it $]) }\nany_it([1, \"b\"]~)\nhalves := [2, 4]~ @ (x: int) -> float { return 0.5 }\nfl := (it: () -> (bool, float)) -> float { return it $+ }\nfl([1.5]~)"),
     ("own_name_param", "f := (f: int, g: int) -> int { return f + g }\nf(1, 2)\ng := (x: int) -> int { g := x + 1; return g }\ng(1)\ng(2)"),
 ];
 
@@ -707,6 +709,34 @@ pub fn run_scenario(sc: &Scenario) -> RunReport {
                             let mut other = good.clone();
                             other[pos] = (b.clone(), cn.clone());
                             vectors.push(other);
+                        }
+                    }
+                }
+                // every top-level VALUE of the session that is not a cell (iterators built by `~`, `@`,
+                // `?`; arrays; structs; modules; other functions ...) offered to every non-cell
+                // parameter, by name in the language and as the replica's value through the host API:
+                // both sides judge the same value against the same parameter type (at most 12 such
+                // vectors per function)
+                let mut offered = 0;
+                'offer: for (pos, pt) in ft.params.iter().enumerate() {
+                    if matches!(pt, Type::Mut(_)) {
+                        continue;
+                    }
+                    for vn in names.iter() {
+                        if vn == "std" || vn == &n {
+                            continue;
+                        }
+                        if let (Some(a), Some(b)) = (interp.get_variable(vn), binterp.get_variable(vn)) {
+                            if matches!(a, Variable::Mut(_)) || matches!(b, Variable::Mut(_)) {
+                                continue;
+                            }
+                            let mut other = good.clone();
+                            other[pos] = (b.clone(), vn.clone());
+                            vectors.push(other);
+                            offered += 1;
+                            if offered >= 12 {
+                                break 'offer;
+                            }
                         }
                     }
                 }
